@@ -70,6 +70,7 @@ func normErsStatusTimes(st *canon.ERSStatus, lo, hi, now int64) {
 
 // store is a generated cluster for the replica-set reconcile.
 type ersWorld struct {
+	healthyMig bool
 	settingsDirected bool
 	eds      *edsv1.ExtendedDaemonSet
 	ers      []*edsv1.ExtendedDaemonSetReplicaSet
@@ -260,6 +261,18 @@ func genErsWorld(r *rand.Rand, now time.Time) *ersWorld {
 	// old daemonset migration; "withdrawn": the annotation has been removed from the EDS again, the
 	// replica sets still carry the copy made when they were created, the DaemonSet and its pods exist
 	mig := r.Intn(7)
+	// "healthy migration": every node runs one Ready pod of the old DaemonSet and nothing else, the active
+	// replica set adopts and replaces them within the budget, sync after sync
+	healthyMig := r.Intn(12) == 0
+	if healthyMig {
+		mig = 0
+		eds.Status.ActiveReplicaSet, eds.Status.Canary = "foo-a", nil
+		for _, k := range []string{edsv1.ExtendedDaemonSetRollingUpdatePausedAnnotationKey, edsv1.ExtendedDaemonSetRolloutFrozenAnnotationKey} {
+			delete(eds.Annotations, k)
+		}
+		w.cat = append(w.cat, "healthy-migration")
+		w.healthyMig = true
+	}
 	withdrawn := mig == 1
 	if mig <= 1 {
 		if !withdrawn {
@@ -268,7 +281,10 @@ func genErsWorld(r *rand.Rand, now time.Time) *ersWorld {
 			w.cat = append(w.cat, "old-daemonset-withdrawn")
 		}
 		ds := &appsv1.DaemonSet{ObjectMeta: metav1.ObjectMeta{Name: "old-ds", Namespace: pick(r, testNS, testNS, "ns2")}}
-		if r.Intn(3) != 0 {
+		if healthyMig {
+			ds.Namespace = testNS
+		}
+		if r.Intn(3) != 0 || healthyMig {
 			ds.Spec.Selector = &metav1.LabelSelector{MatchLabels: map[string]string{"app": "agent"}}
 		}
 		w.dss = append(w.dss, ds)
@@ -292,6 +308,9 @@ func genErsWorld(r *rand.Rand, now time.Time) *ersWorld {
 	for k := 0; k < nn; k++ {
 		name := fmt.Sprintf("n%d", k)
 		cnt := pick(r, 0, 1, 1, 1, 1, 2)
+		if healthyMig {
+			cnt = 0
+		}
 		if settingsDirected && r.Intn(2) == 0 {
 			cnt = 0
 		}
@@ -349,12 +368,16 @@ func genErsWorld(r *rand.Rand, now time.Time) *ersWorld {
 	}
 	if len(w.dss) > 0 {
 		for k := 0; k < nn; k++ {
-			if r.Intn(2) == 0 {
+			if r.Intn(2) == 0 || healthyMig {
 				p := mkPod(fmt.Sprintf("n%d", k), catOldDaemonsetPod, a, a, nil)
 				p.Namespace = w.dss[0].Namespace
 				p.Name = "oldds-" + p.Name
 				delete(p.Labels, edsv1.ExtendedDaemonSetNameLabelKey)
-				if r.Intn(4) == 0 {
+				if healthyMig {
+					p.Status.Conditions = []corev1.PodCondition{readyCond(true, now.Add(-time.Minute))}
+					p.Status.Phase = corev1.PodRunning
+				}
+				if r.Intn(4) == 0 && !healthyMig {
 					p.OwnerReferences = []metav1.OwnerReference{{Kind: "DaemonSet", Name: "another-ds", APIVersion: "apps/v1"}}
 				}
 				w.pods = append(w.pods, p)
@@ -437,6 +460,16 @@ func streamErsReconcile(r *rand.Rand, i int, tier string) *Case {
 	target := pick(r, w.ers...)
 	freq := 10 * time.Second
 	target.Status.Conditions = genErsConds(r, now, freq)
+	// (second-sync cases, see below: the active replica set, not throttled, so that the first sync acts)
+	wantSecondSync := len(w.dss) > 0 && (r.Intn(2) == 0 || w.healthyMig)
+	if wantSecondSync {
+		for _, e := range w.ers {
+			if e.Name == w.eds.Status.ActiveReplicaSet {
+				target = e
+			}
+		}
+		target.Status.Conditions = nil
+	}
 	if w.settingsDirected && r.Intn(3) != 0 {
 		// the active replica set, not throttled: the sync reaches the creations
 		for _, e := range w.ers {
@@ -519,11 +552,36 @@ func streamErsReconcile(r *rand.Rand, i int, tier string) *Case {
 	// one case in ten (fault-free otherwise): the k-th List call of this sync fails (settings, nodes,
 	// pods, the old DaemonSet's pods, canary-label clean-up ...).  A failed read must stop the sync or be
 	// harmless; it must never be replaced by "nothing" (e.g. no settings) in a decision that creates pods.
+	// second-sync cases (migration from a DaemonSet): the same reconciler syncs the SAME world twice — the first
+	// time for real (it may delete adopted pods within the budget), then, one minute later by the stored
+	// stamps, with the old DaemonSet unreadable.  Nothing the first sync saw may stand in for what the
+	// second cannot read.
+	secondSync := failAt == nil && !warm && !neighbour && wantSecondSync
+	if secondSync {
+		Recovered(func() {
+			_, _ = rec.Reconcile(context.TODO(), reconcile.Request{NamespacedName: types.NamespacedName{Namespace: testNS, Name: target.Name}})
+		})
+		cur := &edsv1.ExtendedDaemonSetReplicaSet{}
+		if err := cl.Get(context.TODO(), types.NamespacedName{Namespace: testNS, Name: target.Name}, cur); err == nil {
+			for k := range cur.Status.Conditions {
+				c := &cur.Status.Conditions[k]
+				c.LastUpdateTime = mt(c.LastUpdateTime.Add(-time.Minute))
+				c.LastTransitionTime = mt(c.LastTransitionTime.Add(-time.Minute))
+			}
+			_ = cl.Status().Update(context.TODO(), cur)
+		}
+		wl.mu.Lock()
+		wl.Order, wl.Created, wl.Deleted, wl.Updated, wl.Status, wl.Patched = nil, nil, nil, nil, nil, nil
+		wl.mu.Unlock()
+	}
 	parentUnreadable := false
-	readFault := failAt == nil && !neighbour && ((!warm && r.Intn(10) == 0) || (warm && r.Intn(3) == 0) || (!warm && len(w.settings) > 0 && r.Intn(3) == 0) || (!warm && w.settingsDirected && r.Intn(2) == 0))
+	readFault := secondSync || failAt == nil && !neighbour && ((!warm && r.Intn(10) == 0) || (warm && r.Intn(3) == 0) || (!warm && len(w.settings) > 0 && r.Intn(3) == 0) || (!warm && w.settingsDirected && r.Intn(2) == 0))
 	if readFault {
 		lf := &listFaultClient{Client: cl, failAt: r.Intn(5)}
-		if warm || r.Intn(4) == 0 {
+		if secondSync {
+			lf.failAt = -1
+			lf.failGet = "DaemonSet"
+		} else if warm || r.Intn(4) == 0 {
 			// the Get of the parent ExtendedDaemonSet (or of the old DaemonSet) fails instead: a process that
 			// has seen the object before must not decide from what it remembers
 			lf.failAt = -1
@@ -571,6 +629,9 @@ func streamErsReconcile(r *rand.Rand, i int, tier string) *Case {
 	}
 	if readFault {
 		cat = append(cat, "read-fault:list")
+	}
+	if secondSync {
+		cat = append(cat, "second-sync:old-daemonset-unreadable")
 	}
 	if failAt != nil {
 		in["faulted"] = true
